@@ -1,12 +1,84 @@
 import IpaVerif.Model.Util
-/-! Line-protocol handlers for property C20 (model side). Import-free. -/
+import IpaVerif.Model.Auth
+/-! Line-protocol handlers for property C20 (model side + spec-side oracle). Import-free. -/
 namespace IpaVerif.Driver.C20
-open IpaVerif.Util
+open IpaVerif.Util IpaVerif.Auth IpaVerif.Generated.Routes
 
-/-- `some response` if the request belongs to this property, else `none`. -/
-def handle (_toks : List String) : Option String := none
+def parseMethod : String → Option Method
+  | "GET" => some .get | "POST" => some .post | "PUT" => some .put | "DELETE" => some .delete
+  | "PATCH" => some .patch | "HEAD" => some .head | "OPTIONS" => some .options
+  | _ => none
 
-/-- Property oracle on (request, implementation response): `some "holds"`, `some "fails <why>"`, or `none`. -/
-def oracle (_toks : List String) (_impl : String) : Option String := none
+/-- path part of `path?query`, split into non-empty segments -/
+def segments (target : String) : List String :=
+  (((target.splitOn "?").headD "").splitOn "/").filter (· ≠ "")
+
+def showResp : Resp → String
+  | .notFound => "404"
+  | .methodNotAllowed => "405"
+  | .unauthorized => "401"
+  | .handled _ => "pass"
+
+def tableOf : String → Option (List Entry)
+  | "mpc" => some (flatten mpcRouter)
+  | "shard" => some (flatten shardRouter)
+  | _ => none
+
+def parseIdent (flavor s : String) : Option (Option Nat) :=
+  if flavor == "helper" then
+    match s with
+    | "A" => some (some 0) | "B" => some (some 1) | "C" => some (some 2)
+    | _ => some none
+  else
+    -- ShardIndex: `s.parse::<u32>()`
+    match s.toNat? with
+    | some n => if n < 4294967296 && s.all Char.isDigit then some (some n) else some none
+    | none => some none
+
+def showDerived : Derived Nat → String
+  | .ext none => "ext:none"
+  | .ext (some i) => s!"ext:{i}"
+  | .rejected => "rejected"
+
+def handle (toks : List String) : Option String :=
+  match toks with
+  | ["c20.req", server, _group, m, target, ident, _body] => some <| (do
+      let routes ← tableOf server
+      let r : Req := { path := segments target, method := (← parseMethod m),
+                       helperId := ident == "helper" || ident == "both", shardId := ident == "shard" || ident == "both" }
+      pure (showResp (respond routes r))).getD "bad-request"
+  | ["c20.ident", flavor, arm, cert, header] => some <| (do
+      let a ← armFor (arm == "plain") true
+      let c : Option Nat := if cert == "none" then none else cert.toNat?
+      let h : Option (Option Nat) ← if header == "none" then some none else if header == "bad" then some (some none)
+                                     else (parseIdent flavor header).map some
+      pure (showDerived (deriveIdentity a { cert := c, header := h }))).getD "bad-request"
+  | _ => none
+
+/-! Spec-side oracle: a route mounted by `h2h_router` / `s2s_router` must answer 401 to a request
+without the matching peer identity; collector routes must not answer 401; under TLS the header is
+ignored; without TLS only the header counts. -/
+def oracle (toks : List String) (impl : String) : Option String :=
+  match toks with
+  | ["c20.req", server, group, _m, _target, ident, _body] => some <|
+      let hasHelper := ident == "helper" || ident == "both"
+      let hasShard := ident == "shard" || ident == "both"
+      if group == "h2h" then
+        if !hasHelper then (if impl == "401" then "holds" else s!"fails helper-to-helper route answered {impl} to a caller without a helper identity")
+        else (if impl == "401" then "fails authenticated helper refused" else "holds")
+      else if group == "s2s" then
+        if !hasShard then (if impl == "401" then "holds" else s!"fails shard-to-shard route answered {impl} to a caller without a shard identity")
+        else (if impl == "401" then "fails authenticated shard refused" else "holds")
+      else if group == "query" || group == "top" then
+        (if impl == "401" then s!"fails report-collector route on the {server} server requires a peer identity" else "holds")
+      else (if impl == "pass" then "fails a path outside the route table was served" else "holds")
+  | ["c20.ident", _flavor, arm, cert, header] => some <|
+      if arm == "tls" then
+        (if impl == (if cert == "none" then "ext:none" else s!"ext:{cert}") then "holds"
+         else s!"fails under TLS the identity is {impl} although the certificate identifies {cert} (header {header})")
+      else
+        if header == "none" then (if impl == "ext:none" then "holds" else s!"fails identity {impl} without certificate or header")
+        else if impl == "ext:none" then "fails header ignored although TLS is disabled" else "holds"
+  | _ => none
 
 end IpaVerif.Driver.C20
